@@ -77,6 +77,7 @@ type UI struct {
 	pos   int
 	Out   []string // Print
 	Errs  []string // PrintErr
+	ErrAt []int    // per message: how many input lines had been read when it was printed
 	// OnRead, if set, is called before each ReadLine with the index of the line.
 	OnRead func(i int)
 }
@@ -102,6 +103,7 @@ func (u *UI) Print(args ...interface{}) {
 func (u *UI) PrintErr(args ...interface{}) {
 	u.mu.Lock()
 	u.Errs = append(u.Errs, fmt.Sprint(args...))
+	u.ErrAt = append(u.ErrAt, u.pos)
 	u.mu.Unlock()
 }
 func (u *UI) IsTerminal() bool                    { return false }
